@@ -715,6 +715,51 @@ FLAVOURS = {
 }
 
 
+def dl_histories(out, tier):
+    """Real shared libraries: a main program and two plugins (new classes + definitions), every history of
+    dlopen / dlclose / update up to a bound executed in one process; the registration objects' constructors
+    and destructors (class_declaration, function-local definition_info) run as the loader runs them."""
+    sys_path_gen()
+    import itertools
+    import dl_emit
+    d = os.path.join(C.scratch(), "dl")
+    os.makedirs(d, exist_ok=True)
+    maxlen = 5 if tier == "quick" else 7
+    words = []
+    for L in range(1, maxlen + 1):
+        for w in itertools.product("abu", repeat=L - 1):
+            words.append("".join(w) + "u")
+    results, sources = {}, {}
+    for variant, extra in (("rel", ["-DNDEBUG"]), ("dbg", [])):
+        name = "dl" + variant
+        vd = os.path.join(d, variant)
+        os.makedirs(vd, exist_ok=True)
+        srcs = dl_emit.sources(name)
+        for f, t in srcs.items():
+            with open(os.path.join(vd, f), "w") as fh:
+                fh.write(t)
+        flags = ["-std=c++17", "-O0", "-w", "-I" + os.path.join(C.REPO, "include"), "-DYOMM2_VERIF", "-include",
+                 os.path.join(C.HARNESS, "verif_hooks.hpp"), "-fno-gnu-unique"] + extra
+        ok = True
+        msg = ""
+        for cmd in (["g++"] + flags + ["main.cpp", "-o", "main", "-ldl", "-Wl,-export-dynamic"],
+                    ["g++"] + flags + ["-fPIC", "-shared", "plug_a.cpp", "-o", "a.so"],
+                    ["g++"] + flags + ["-fPIC", "-shared", "plug_b.cpp", "-o", "b.so"]):
+            rc, o = C.sh(cmd, cwd=vd, timeout=900)
+            if rc != 0:
+                ok, msg = False, o
+                break
+        sources[name] = srcs["main.cpp"]
+        if not ok:
+            results[name] = (None, "COMPILE-FAILED\n" + msg[-2000:])
+            continue
+        rc, o = C.sh(["./main", "./a.so", "./b.so"] + words, cwd=vd, timeout=900)
+        results[name] = (rc, o)
+    F.validate_program_outputs("C07", results, sources, out, "c07-dl", "TraceYomm2_dispatch.cfg", "TraceYomm2.tla")
+    out.notes.append("%d dlopen/dlclose/update histories (all words over {load/unload A, load/unload B, update} of length <= %d ending in update) "
+                     "executed with real shared libraries, release and debug default policies" % (len(words), maxlen))
+
+
 def check_C07(tier, seed):
     TCFG = "TraceYomm2_dispatch.cfg"
     t0 = time.time()
@@ -740,6 +785,8 @@ def check_C07(tier, seed):
                 h2.append(h)
         scs.append(history_script_shapes("rnd-%d" % i, [[p] for p in policies], h2, mpool, 1, False))
     F.execute_and_validate("C07", exe, scs, out, "c07-rnd", TCFG)
+
+    dl_histories(out, tier)
 
     def drop_undef(lines):
         for i, ln in enumerate(lines):
